@@ -13,7 +13,8 @@ def c11():
               "helper thread] -> in-flight work (messages incl. to the virtual thread, periodic 1 ms timer, readable pipe event) -> early "
               "shutdown_wait (EBUSY) / destroy from a pool thread (EDEADLK) -> shutdown {outside, from a pool thread, two threads at once, "
               "twice, skipped} -> late threads_create/attach_first (EBUSY) -> shutdown_wait {none, outside, pool thread first, two at once} "
-              "-> destroy; schedule plan at the LIBLCB_VERIF points; resource-fault plan (k-th calloc / epoll_create1 / pipe2 / epoll_ctl / "
+              "-> destroy; start/stop hooks on all / one / no thread, a created worker that detaches itself (tp_thread_dettach) before the shutdown, waiters that block "
+              "until the attached thread has left; schedule plan at the LIBLCB_VERIF points; resource-fault plan (k-th calloc / epoll_create1 / pipe2 / epoll_ctl / "
               "pthread_create fails). The fault sweep enumerates every k observed in a fault-free run of fixed histories, for every function. "
               "Non-trivial: shutdown from inside the pool, concurrent shutdown/wait, in-flight work, or an injected fault. "
               "distinct = distinct history fingerprints."),
